@@ -96,6 +96,8 @@ pub const STRESS: &[&str] = &[
     "many-identical",
     "near-equal-names",
     "names-beyond-65535",
+    "earlier-name-as-prefix",
+    "wrapped-table-long-names",
 ];
 
 /// Which family a stress case belongs to: spread so that no family lands on a fixed subset of the shards
@@ -253,6 +255,48 @@ pub fn stress(rng: &mut Rng, fam: usize) -> Msg {
                 m.sec[1].push(rec(early.clone(), T_NS, RData::Name(Name(vec![b"ns".to_vec()]).concat(&early))));
             }
             m.sec[2].push(a_rec(m.question[0].name.clone()));
+        }
+        12 => {
+            // a later name begins with the labels of an entire earlier name and goes on ("example.com" then
+            // "example.com.cdn.net"): sharing a *prefix* is not sharing a suffix
+            let first = Name(vec![lab(rng), lab(rng)]);
+            m.sec[0].push(a_rec(first.clone()));
+            for _ in 0..rng.range(2, 6) {
+                let tail = Name((0..rng.range(1, 3)).map(|_| lab(rng)).collect());
+                let longer = first.concat(&tail);
+                m.sec[rng.below(3)].push(a_rec(longer.clone()));
+                m.sec[rng.below(3)].push(rec(tail.clone(), T_NS, RData::Name(longer.clone())));
+                m.sec[rng.below(3)].push(rec(first.clone(), T_CNAME, RData::Name(Name(vec![lab(rng)]).concat(&longer))));
+            }
+        }
+        13 => {
+            // the suffix table has wrapped (more than 32 distinct suffixes), then names longer than 127 bytes whose
+            // tails are remembered, each immediately followed by every domain again (one of them sits in the slot
+            // under the cursor)
+            let k = rng.range(34, 48);
+            let doms: Vec<Name> = (0..k)
+                .map(|i| {
+                    let mut l = b"d".to_vec();
+                    l.extend_from_slice(i.to_string().as_bytes());
+                    Name(vec![l, b"zone".to_vec()])
+                })
+                .collect();
+            for d in &doms {
+                m.sec[0].push(a_rec(d.clone()));
+            }
+            for _ in 0..rng.range(1, 4) {
+                let d = rng.pick(&doms).clone();
+                let w = rng.range(130, 240).min(255 - d.wire_len());
+                let long = Name(name_of_wire_len(rng, w).0.into_iter().chain(d.0.clone().into_iter()).collect());
+                if long.wire_len() <= 255 {
+                    m.sec[1].push(rec(d.clone(), T_NS, RData::Name(long)));
+                }
+                let start = rng.below(doms.len());
+                for j in 0..doms.len() {
+                    let e = &doms[(start + j) % doms.len()];
+                    m.sec[1].push(rec(e.clone(), T_NS, RData::Name(Name(vec![b"ns".to_vec()]).concat(e))));
+                }
+            }
         }
         _ => {
             // names that differ from each other in exactly one byte (one bit, one step, or the split into
